@@ -513,6 +513,93 @@ def gen_peer(out):
                "Inductive cert_choice := LeafOfHandshake.\nDefinition peer_cert_choice : cert_choice := LeafOfHandshake.")
 
 
+def gen_getref(out):
+    """Tub.startService: with which SturdyRef a queued getReference request is resumed"""
+    pm = P.load("pb.py")
+    ss = P.find_def(pm, "Tub.startService")
+    loops = [n for n in ss.body if isinstance(n, ast.For) and un(n.iter) == "self._pending_getReferences"]
+    if len(loops) != 1 or not isinstance(loops[0].target, ast.Tuple) or len(loops[0].target.elts) != 2 \
+            or not all(isinstance(e, ast.Name) for e in loops[0].target.elts):
+        raise U("Tub.startService: expected one `for d, sturdy in self._pending_getReferences:` loop")
+    lp = loops[0]
+    dvar, svar = [e.id for e in lp.target.elts]
+    if any(isinstance(n, (ast.For, ast.While, ast.If, ast.Try)) for st in lp.body for n in ast.walk(st)):
+        raise U("Tub.startService: control flow inside the resumption loop")
+
+    def free_in_lambda(lam, name):
+        bound = {a.arg for a in lam.args.args + lam.args.kwonlyargs}
+        if lam.args.vararg or lam.args.kwarg:
+            raise U("Tub.startService: star-args in a resumption lambda")
+        return name not in bound and any(isinstance(n, ast.Name) and n.id == name for n in ast.walk(lam.body))
+
+    def default_of(lam, name):
+        args = lam.args.args
+        defs = lam.args.defaults
+        for a, dflt in zip(args[len(args) - len(defs):], defs):
+            if a.arg == name:
+                return un(dflt)
+        return None
+    # how the SturdyRef reaches getReference
+    binding = None
+    fired_with = None
+    for st in lp.body:
+        if isinstance(st, ast.Assign) and isinstance(st.value, ast.Call) and un(st.value.func) == "eventual.fireEventually":
+            fired_with = [un(a) for a in st.value.args]
+    for st in lp.body:
+        if not (isinstance(st, ast.Expr) and isinstance(st.value, ast.Call) and isinstance(st.value.func, ast.Attribute)
+                and st.value.func.attr == "addCallback"):
+            continue
+        cb = st.value.args[0]
+        if un(cb) in ("self.getReference", "self._getReference") and len(st.value.args) == 1:
+            if fired_with != [svar]:
+                raise U("Tub.startService: getReference is chained to a Deferred that is not fired with the request's SturdyRef")
+            binding = "BoundPerIteration"
+        elif isinstance(cb, ast.Lambda):
+            calls = [n for n in ast.walk(cb.body) if isinstance(n, ast.Call) and un(n.func) in ("self.getReference", "self._getReference")]
+            if len(calls) != 1 or [un(a) for a in calls[0].args] != [svar] or calls[0].keywords:
+                raise U("Tub.startService: resumption lambda does not call getReference(%s)" % svar)
+            if free_in_lambda(cb, svar):
+                binding = "BoundLate"          # closes over the loop variable; runs after the loop has finished
+            elif default_of(cb, svar) == svar:
+                binding = "BoundPerIteration"
+            else:
+                raise U("Tub.startService: cannot tell which SturdyRef the resumption lambda uses")
+        else:
+            raise U("Tub.startService: unrecognised callback in the resumption loop: " + un(cb))
+    if binding is None:
+        raise U("Tub.startService: the queued requests are no longer handed to getReference")
+    # where the answer goes: the request's own Deferred
+    both = [st.value for st in lp.body if isinstance(st, ast.Expr) and isinstance(st.value, ast.Call)
+            and isinstance(st.value.func, ast.Attribute) and st.value.func.attr == "addBoth"]
+    if len(both) != 1 or not isinstance(both[0].args[0], ast.Lambda):
+        raise U("Tub.startService: expected one addBoth(lambda ...) delivering the answer")
+    lam = both[0].args[0]
+    if free_in_lambda(lam, dvar) or default_of(lam, dvar) != dvar or un(lam.body) != "%s.callback(%s)" % (dvar, lam.args.args[0].arg):
+        raise U("Tub.startService: the answer is no longer delivered to the request's own Deferred")
+    out.append("(* Tub.startService: binding of the loop's SturdyRef at the time the queued request is resumed *)\n"
+               "Inductive binding := BoundPerIteration | BoundLate.\n"
+               "Definition resume_sturdy_binding : binding := %s." % binding)
+    gr = P.find_def(pm, "Tub._getReference")
+    src = un(gr)
+    for frag in ("sturdy = SturdyRef(sturdyOrURL)", "self._pending_getReferences.append((d, sturdy))", "name = sturdy.name",
+                 "d = self.getBrokerForTubRef(sturdy.getTubRef())", "d.addCallback(lambda b: b.getYourReferenceByName(name))"):
+        if frag not in src:
+            raise U("Tub._getReference no longer contains: " + frag)
+    if not has_if(gr, "not self.running", "log.msg('Tub.getReference(%s) queued until Tub.startService called' % sturdy, facility='foolscap.tub')") \
+            and not any(isinstance(n, ast.If) and un(n.test) == "not self.running" for n in gr.body):
+        raise U("Tub._getReference: the `if not self.running:` queueing branch changed")
+    n_assign = sum(1 for n in ast.walk(gr) if isinstance(n, ast.Assign) for t in n.targets if un(t) in ("name", "sturdy"))
+    if n_assign != 3:
+        raise U("Tub._getReference: `sturdy` / `name` are assigned %d times (expected 3)" % n_assign)
+    if "return defer.maybeDeferred(self._getReference, sturdyOrURL)" not in un(P.find_def(pm, "Tub.getReference")):
+        raise U("Tub.getReference no longer defers to _getReference with its own argument")
+    bm = P.load("broker.py")
+    if "self.remote_broker.callRemote('getReferenceByName', name=name)" not in un(P.find_def(bm, "Broker.getYourReferenceByName")):
+        raise U("Broker.getYourReferenceByName changed")
+    if "return self.tub.getReferenceForName(six.ensure_str(name))" not in un(P.find_def(bm, "Broker.remote_getReferenceByName")):
+        raise U("Broker.remote_getReferenceByName changed")
+
+
 def generate():
     mod = P.load("negotiate.py")
     out = [P.PRELUDE % dict(src="negotiate.py, pb.py, referenceable.py, broker.py")]
@@ -530,4 +617,5 @@ def generate():
     gen_lookup(mod, out)
     gen_inbound(out)
     gen_tub(out)
+    gen_getref(out)
     return {"IdentityGen.v": "\n\n".join(out) + "\n"}
